@@ -5,7 +5,7 @@ CONSTANTS
   Cids = {"b0", "b1", "b2", "img", "idx", "idy", "sub", "bad"}
   BlobIds = {}
   ManIds = {}
-  Cat <- MCCat
+  Cat <- FCat
   UploadIds = {"u1", "u2"}
   ImmChoices = {FALSE}
   BlockSize = 8
@@ -14,8 +14,9 @@ CONSTANTS
   Chars <- MCChars
   MCKinds = {"sub"}
   ErrIds = {}
-  MaxSteps = 2
+  MaxSteps = 1
   HostileSteps = 1
+  AllScopes = FALSE
 INVARIANTS FTypeOK
 PROPERTIES Confined EqualsRestriction ListingExact ScopesRewritten
 VIEW FView
